@@ -39,11 +39,21 @@ def argv_for(site, tmp, concurrent):
             '--waitretry', '0', '--tries', '3']
 
 
-def spawn(spec, tmp, tag):
+FI_SO = os.path.join(common.VERIF, 'harness', 'fi', 'fi.so')
+
+
+def spawn(spec, tmp, tag, fi=None):
     spec_path = os.path.join(tmp, 'spec-%s.json' % tag)
     with open(spec_path, 'w') as f:
         json.dump(spec, f)
-    return subprocess.Popen([par.PY, '-m', 'harness.crawlchild', spec_path], cwd=common.VERIF, env=par.child_env(),
+    env = par.child_env()
+    if fi:
+        # syscall-level kill on the database files (pwrite / fdatasync / ftruncate of crawl.db, -wal, -shm)
+        env.update({'LD_PRELOAD': FI_SO, 'FI_PATH': os.path.join(tmp, 'crawl.db'), 'FI_ARMED': '1',
+                    'FI_AT': str(fi.get('at', 0)), 'FI_MODE': fi.get('mode', 'kill_torn')})
+        if fi.get('log'):
+            env['FI_LOG'] = fi['log']
+    return subprocess.Popen([par.PY, '-m', 'harness.crawlchild', spec_path], cwd=common.VERIF, env=env,
                             stdout=subprocess.PIPE, stderr=subprocess.STDOUT, start_new_session=True)
 
 
@@ -79,7 +89,12 @@ def run_case(case, part):
         table = {site.host: addrs[0]}
         res1_path = os.path.join(tmp, 'res1.json')
         sql_kill = kill if kill and kill['kind'] in ('before_stmt', 'after_stmt', 'before_commit', 'after_commit') else None
-        proc = spawn({'argv': argv, 'table': table, 'kill': sql_kill, 'result_file': res1_path}, tmp, 'run1')
+        fi = None
+        if kill and kill['kind'] == 'fi_write':
+            fi = {'at': kill['at'], 'mode': kill['mode']}
+        elif kill is None and case.get('count_fi') and os.path.exists(FI_SO):
+            fi = {'at': 0, 'mode': 'err', 'log': os.path.join(tmp, 'fi.log')}
+        proc = spawn({'argv': argv, 'table': table, 'kill': sql_kill, 'result_file': res1_path}, tmp, 'run1', fi=fi)
         if kill and kill['kind'] == 'request':
             def on_request(entry, phase, pid=proc.pid):
                 if entry['seq'] == kill['at'] and phase == kill['phase']:
@@ -90,6 +105,8 @@ def run_case(case, part):
                     time.sleep(0.05)
             srv.on_request = on_request
         rc1, out1 = wait(proc)
+        if kill and kill['kind'] == 'fi_write' and rc1 == 137:
+            rc1 = -9        # fi.so terminates with _exit(137)
         srv.on_request = None
         log1 = srv.log.snapshot()
         n1 = len(log1)
@@ -98,10 +115,21 @@ def run_case(case, part):
             with open(res1_path) as f:
                 res1 = json.load(f)
             rows = read_rows(os.path.join(tmp, 'crawl.db'))
+            fi_ops = 0
+            try:
+                with open(os.path.join(tmp, 'fi.log')) as f:
+                    fi_ops = sum(1 for line in f if line.split()[1:2] and line.split()[1] in ('pwrite', 'write', 'fdatasync',
+                                                                                                'fsync', 'ftruncate'))
+                    f.seek(0)
+                    fi_total = sum(1 for _ in f)
+            except OSError:
+                fi_total = 0
             return {'counts': res1['counts'], 'requests': [canon_request(e) for e in log1], 'exit': res1['exit_status'],
-                    'rows': rows}
+                    'rows': rows, 'fi_total_ops': fi_total}
         part.evaluations += 1
         kind = kill['kind'] if kill['kind'] != 'request' else 'request:' + kill['phase']
+        if kill['kind'] == 'fi_write':
+            kind = 'fi_write:' + kill['mode']
         part.count('kills_' + kind.split(':')[0])
         if rc1 != -9:
             # the kill point was not reached in this run (counts vary slightly with concurrency)
@@ -128,8 +156,13 @@ def run_case(case, part):
                     part.violation('database-integrity-check-failed/' + kind, {'result': integrity[:3]}, replay)
                 post = read_rows(copy_db)
             except sqlite3.DatabaseError as e:
-                part.violation('post-kill-database-unreadable/' + kind, {'error': str(e)}, replay)
-                return None
+                if 'no such table' in str(e):
+                    # killed while the schema was being created: nothing recorded yet
+                    part.count('killed_before_tables_created')
+                    post = []
+                else:
+                    part.violation('post-kill-database-unreadable/' + kind, {'error': str(e)}, replay)
+                    return None
         done_before = set(r['url'] for r in post if r['status'] in ('done', 'skipped'))
         all_before = set(r['url'] for r in post)
         # ---- resume
@@ -206,6 +239,12 @@ def main():
                          'level inf so that the set an uninterrupted crawl fetches does not depend on discovery order']
     check.trusted_base += ['harness/crawlchild.py SQLAlchemy engine-event kill hooks', 'harness/servers.py']
     target = 'checks.c03_resume:worker'
+    # the syscall injector is built by setup_cmd; build it here when it is missing (fresh restore without setup)
+    try:
+        from checks import c06_warcfault
+        c06_warcfault.ensure_fi()
+    except Exception:
+        pass
     if check.args.replay:
         with open(check.args.replay) as f:
             rp = json.load(f)
@@ -219,7 +258,8 @@ def main():
             for conc in ((1, 3) if check.thorough else (2,)):
                 workloads.append({'site_seed': site_seed, 'n_pages': rng.choice([8, 12, 20]) if check.thorough else 7,
                                   'concurrent': conc, 'delay_seed': rng.randrange(1 << 30)})
-        counts = par.run_jobs(target, [{'count': True, 'case': dict(w, kill=None)} for w in workloads], check.jobs, timeout=300)
+        counts = par.run_jobs(target, [{'count': True, 'case': dict(w, kill=None, count_fi=True)} for w in workloads],
+                              check.jobs, timeout=300)
         cases = []
         for w, c in zip(workloads, counts):
             if not c or '_error' in c or c.get('exit') != 0:
@@ -242,6 +282,15 @@ def main():
             for k in range(R):
                 for ph in PHASES:
                     points.append({'kind': 'request', 'at': k, 'phase': ph})
+            # syscall-level kills on the database files: torn write / kill after the operation
+            F = c.get('fi_total_ops') or 0
+            check.count('db_file_operations_enumerated', F)
+            if F:
+                ks = range(1, F + 1) if check.thorough else sorted(set(rng.randrange(1, F + 1) for _ in range(24)))
+                for k in ks:
+                    points.append({'kind': 'fi_write', 'at': k, 'mode': 'kill_torn'})
+                    if check.thorough:
+                        points.append({'kind': 'fi_write', 'at': k, 'mode': 'kill_after'})
             for p in points:
                 cases.append(dict(w, kill=p, reference_requests=ref))
         check.extra['kill_points'] = len(cases)
